@@ -38,6 +38,10 @@ D2S = [
     "@misc{d2f}\n@a{d2g, f = {1}}",
     # entry types beyond plain letters (digits, underscore, non-ASCII letters: everything \\w matches)
     "@inproceedings2{d2h, f = {1}}\n@tech_report{d2i}\n@art\xedculo_9{d2j, g = {2},}",
+    # blanks / a tab between the type and the brace
+    "@misc {d2m, f = {1}}\n@book\t{d2n}\n@String  {d2u = {w}}",
+    # blocks that are not first on their line, after blocks of other kinds
+    '@string{d2t = {v}} @b{d2k}\n@comment{c2} @a{d2l, f = {1}} @preamble{"q"} @c{d2o}',
 ]
 X_BLOCKS = [
     "@article{xk1, t = {A {B}}, y = 1}",
